@@ -2,8 +2,42 @@ use serde_json::Value;
 use std::io::{BufRead, BufReader, Write};
 use std::panic::{catch_unwind, AssertUnwindSafe};
 
+static LAST_PANIC_LOCATION_ANY_THREAD: std::sync::Mutex<String> = std::sync::Mutex::new(String::new());
+thread_local! {
+    static LAST_PANIC_LOCATION: std::cell::RefCell<String> = std::cell::RefCell::new(String::new());
+}
+
+/// The hook prints nothing but remembers WHERE the panic was raised (crate-relative file and line):
+/// a known finding is identified by its call site, not only by its message.
 pub fn install_quiet_panic_hook() {
-    std::panic::set_hook(Box::new(|_| {}));
+    std::panic::set_hook(Box::new(|info| {
+        let loc = info
+            .location()
+            .map(|l| {
+                let f = l.file();
+                // .../registry/src/<index>/<crate-version>/src/... -> <crate-version>/src/...
+                let f = match f.find("/registry/src/") {
+                    Some(k) => f[k + 14..].splitn(2, '/').nth(1).unwrap_or(f).to_string(),
+                    None => f.trim_start_matches("/repo/").to_string(),
+                };
+                format!("{}:{}", f, l.line())
+            })
+            .unwrap_or_default();
+        if let Ok(mut g) = LAST_PANIC_LOCATION_ANY_THREAD.lock() {
+            *g = loc.clone();
+        }
+        LAST_PANIC_LOCATION.with(|c| *c.borrow_mut() = loc);
+    }));
+}
+
+/// Location of the last panic raised on this thread ("" if none was recorded).
+pub fn last_panic_location() -> String {
+    let here = LAST_PANIC_LOCATION.with(|c| c.borrow().clone());
+    if !here.is_empty() {
+        return here;
+    }
+    // the panic was raised on a thread of the code under test
+    LAST_PANIC_LOCATION_ANY_THREAD.lock().map(|g| g.clone()).unwrap_or_default()
 }
 
 /// Runs `f`, turning a panic into `Err(message)`: a panic in the code under test is data.
